@@ -1199,6 +1199,7 @@ class MatrixVectorProduct(VectorExpression):
         vector: VectorVariable | VectorExpression,
     ) -> None:
         matrix = np.array(matrix)  # private copy (see LinearCombination)
+        matrix.setflags(write=False)
         if matrix.ndim != 2:
             raise WrongDimensionalityError(
                 context="matrix-vector product",
@@ -1220,7 +1221,8 @@ class MatrixVectorProduct(VectorExpression):
 
         # Create a LinearCombination for each row
         self._expressions: list[Expression] = [
-            LinearCombination(matrix[i, :], vector) for i in range(self.size)
+            LinearCombination(matrix[i, :], vector, _owned=True)
+            for i in range(self.size)
         ]
 
     def evaluate(self, values: Mapping[str, ArrayLike | float]) -> list[float]:
@@ -1293,8 +1295,12 @@ class QuadraticForm(Expression):
         self,
         vector: VectorVariable | VectorExpression,
         matrix: np.ndarray,
+        *,
+        _owned: bool = False,
     ) -> None:
-        matrix = np.array(matrix)  # private copy (see LinearCombination)
+        # private read-only copy (see LinearCombination); _owned: already one
+        matrix = np.asarray(matrix) if _owned else np.array(matrix)
+        matrix.setflags(write=False)
         if matrix.ndim != 2:
             raise WrongDimensionalityError(
                 context="quadratic form",
